@@ -359,7 +359,7 @@ def main():
     def classify(fails, kind):
         for f in fails:
             sig = signature_of(f["case"])
-            hit = [k for k in known if sig and k.get("signature") == sig]
+            hit = [k for k in known if sig and k.get("signature") == sig and k.get("stream") == f.get("stream")]
             if hit:
                 line = "KNOWN-FINDING: property=%s %s" % (prop, hit[0].get("summary", sig))
                 if line not in known_lines:
